@@ -673,6 +673,36 @@ func checkDigitAccumulation(c *Ctx, rule string, pkgPath string) {
 			}
 		}
 	}
+	// the same number read by the library: the digits of the pattern grammar are decimal digits, so the base is the constant 10
+	// (base 0 reads a leading zero as octal and 0x as hexadecimal: a{010,9} would be a{8,9}); strconv.Atoi is base 10
+	for _, f := range allFuncsOfPkgDeep(sp) {
+		for _, b := range f.Blocks {
+			for _, in := range b.Instrs {
+				call, ok := in.(*ssa.Call)
+				if !ok {
+					continue
+				}
+				name := staticCalleeName(call)
+				switch name {
+				case "strconv.Atoi":
+					n++
+					c.Pass(rule, shortFn(f)+": a count is read as a decimal number", call.Pos(), "strconv.Atoi")
+				case "strconv.ParseInt", "strconv.ParseUint":
+					n++
+					if len(call.Call.Args) >= 2 {
+						k, isK := call.Call.Args[1].(*ssa.Const)
+						if isK && k.Value != nil {
+							c.Check(rule, shortFn(f)+": a count is read as a decimal number", call.Pos(), k.Int64() == 10,
+								fmt.Sprintf("%s is called with base %d: the pattern grammar's numbers are sequences of decimal digits, and with this base a leading zero (or 0x, 0b) changes the value, so that the comparison of minimum and maximum is made on other numbers than the ones written", name, k.Int64()),
+								"a{010,9}: accepted as a{8,9}; a{08}: rejected")
+						} else {
+							c.Undecided(rule, shortFn(f)+": a count is read as a decimal number", call.Pos(), "the base of "+name+" is not a constant")
+						}
+					}
+				}
+			}
+		}
+	}
 	if n == 0 {
 		c.Undecided(rule, "a decimal number is accumulated under an overflow test", token.NoPos, "no accumulation of the form acc*10 + digit was found in "+pkgPath)
 	}
